@@ -12,8 +12,9 @@ CONSTANTS
  MaxBad = 1
  MaxRestore = 0
  MaxBadUnit = 0
+ RePut = TRUE
  DocNKeys = 1
- DocShapes = {"p", "a2", "o1"}
+ DocShapes = {"p", "a2", "o1", "oa"}
  DocMaxBatch = 1
  SimMode = FALSE
 INVARIANT Convergence
